@@ -48,7 +48,7 @@ func run(c *core.Ctx) {
 func c14Families(thorough bool) []check.Family {
 	return []check.Family{families.PayloadValidation(thorough), families.ResultValidation(thorough), families.PayloadSingle(), families.ResultSingle(),
 		families.PayloadPair(thorough), families.ResultPair(thorough), families.ResultStatus(), families.Errors(),
-		families.ValidationIsolated("payload", thorough), families.ValidationIsolated("result", thorough), families.SingleIsolated("payload"), families.SingleIsolated("result"), families.RequiredDefault(), families.CrossService()}
+		families.ValidationIsolated("payload", thorough), families.ValidationIsolated("result", thorough), families.SingleIsolated("payload"), families.SingleIsolated("result"), families.RequiredDefault(), families.CrossService(), families.Views(thorough)}
 }
 
 // replay re-executes the method named in a replay file: the family's corpus is built or reused
